@@ -80,9 +80,15 @@ type probeBlock struct {
 	accept bool
 	trig   bool
 	log    *probeLog
+	// after: the probe is triggered by '=' and cannot interrupt a paragraph (scale 4: it is asked
+	// only once the paragraph before the line has been transformed away)
+	after bool
 }
 
 func (p *probeBlock) Trigger() []byte {
+	if p.trig && p.after {
+		return []byte{'='}
+	}
 	if p.trig {
 		return []byte{'@'}
 	}
@@ -101,7 +107,7 @@ func (p *probeBlock) Continue(node ast.Node, reader text.Reader, pc parser.Conte
 	return parser.Close
 }
 func (p *probeBlock) Close(node ast.Node, reader text.Reader, pc parser.Context) {}
-func (p *probeBlock) CanInterruptParagraph() bool                                { return true }
+func (p *probeBlock) CanInterruptParagraph() bool                                { return !p.after }
 func (p *probeBlock) CanAcceptIndentedLine() bool                                { return false }
 
 type probePara struct {
@@ -158,7 +164,7 @@ func concretePrio(class string, rank, scale int) int {
 		return b + (rank - 3)
 	case 1:
 		return b + (rank-3)*100000
-	default:
+	default: // 2 and 4
 		switch rank {
 		case 1:
 			return math.MinInt
@@ -205,9 +211,9 @@ func runRegCfg(cf regCfg) (log []string, winner string, out string, err error) {
 				popt = parser.WithInlineParsers(shared[:1]...)
 				decoy = parser.WithInlineParsers(util.Prioritized(&probeInline{"decoy", true, dl}, decoyPrio))
 			case "block":
-				shared = append(shared, util.Prioritized(&probeBlock{name, cf.Accept[name], cf.Trig[name], pl}, prio))
+				shared = append(shared, util.Prioritized(&probeBlock{name, cf.Accept[name], cf.Trig[name], pl, cf.Scale == 4}, prio))
 				popt = parser.WithBlockParsers(shared[:1]...)
-				decoy = parser.WithBlockParsers(util.Prioritized(&probeBlock{"decoy", true, true, dl}, decoyPrio))
+				decoy = parser.WithBlockParsers(util.Prioritized(&probeBlock{"decoy", true, true, dl, false}, decoyPrio))
 			case "para":
 				shared = append(shared, util.Prioritized(&probePara{name, pl}, prio))
 				popt = parser.WithParagraphTransformers(shared[:1]...)
@@ -234,7 +240,7 @@ func runRegCfg(cf regCfg) (log []string, winner string, out string, err error) {
 		case "inline":
 			popt = parser.WithInlineParsers(util.Prioritized(&probeInline{name, cf.Accept[name], pl}, prio))
 		case "block":
-			popt = parser.WithBlockParsers(util.Prioritized(&probeBlock{name, cf.Accept[name], cf.Trig[name], pl}, prio))
+			popt = parser.WithBlockParsers(util.Prioritized(&probeBlock{name, cf.Accept[name], cf.Trig[name], pl, cf.Scale == 4}, prio))
 		case "para":
 			popt = parser.WithParagraphTransformers(util.Prioritized(&probePara{name, pl}, prio))
 		case "ast":
@@ -265,6 +271,12 @@ func runRegCfg(cf regCfg) (log []string, winner string, out string, err error) {
 		_ = goldmark.New(sibling...) // configured after md, before md's first conversion
 	}
 	doc := map[string]string{"inline": "*a\n", "block": "@x\n", "para": "x\n", "ast": "x\n", "render": "---\n"}[cf.Class]
+	plain := "<p>@x</p>\n"
+	if cf.Scale == 4 {
+		// the line "===" follows a paragraph that a paragraph transformer removes (a link reference
+		// definition): the Setext parser is discarded and the parsers are asked again, in priority order
+		doc, plain = "[a]: /u\n===\n", "<p>===</p>\n"
+	}
 	var buf bytes.Buffer
 	if e := md.Convert([]byte(doc), &buf); e != nil {
 		return nil, "", "", e
@@ -282,7 +294,7 @@ func runRegCfg(cf regCfg) (log []string, winner string, out string, err error) {
 		winner = "builtin"
 		if i := strings.Index(out, "<probe by=\""); i >= 0 {
 			winner = out[i+11 : i+11+strings.Index(out[i+11:], "\"")]
-		} else if out != "<p>@x</p>\n" {
+		} else if out != plain {
 			winner = "?" + out
 		}
 	case "render":
@@ -494,6 +506,15 @@ func runC20(c *Ctx) {
 			}
 			if len(cf.Order) >= 2 && (c.Thorough() || i%2 == 0) {
 				scales = append(scales, 3)
+			}
+			if class == "block" && (c.Thorough() || i%3 == 0) {
+				allTrig := true
+				for _, n := range cf.Order {
+					allTrig = allTrig && cf.Trig[n]
+				}
+				if allTrig {
+					scales = append(scales, 4)
+				}
 			}
 			for _, sc := range scales {
 				cf.Scale = sc
